@@ -249,7 +249,8 @@ CLAIMS = {
           "single file and hive directory, and a foreign file) carry int, text, categorical, float-with-NaN, time-zone aware "
           "timestamp and nullable integer columns; a time cell compares by instant and by awareness."),
     design_ref="DESIGN.md section 5 C06, section 10",
-    note=("Datasets are written without a row index (the written row index is covered by C01's index write options). "
+    note=("The index= argument (recorded / suppressed / a named column) is explored on a reduced slice-argument grid, on "
+          "datasets written without and with a named row index. "
           "Defects repaired: head() on an empty view, copied handle of a file without pandas metadata."),
     technique="TLA+ spec of views with Python slice semantics; TLC enumeration of access programs; spec->code replay"),
  "C17": dict(
